@@ -749,6 +749,8 @@ def partial_bank_models(ctx: Ctx, n_random: int):
                    _bank=keep_bank(b3, SUBSETS[name]))
         if cls == "unet":
             ds = int(rng.integers(1, 3))
+            if ctx.tier == "quick":
+                ds = 1  # two-level partial-bank UNets take up to ~30 s to trace: thorough tier only
             upname = name if rng.integers(3) else names[int(rng.integers(len(names)))]
             cfg.update(num_downsamples=ds, num_conv=int(rng.integers(1, 3)),
                        dims=[int(m) * 2**ds for m in rng.integers(1, 3, size=2)],
